@@ -29,6 +29,14 @@ accessors are looked at after it (all / arrays first / only the arrays / everyth
 built cache, memo or stored handle inside a callback is left alone while the records change under it and is then read at
 the same length / same epochs / a longer / a shorter history.  The oracle after every op is the same probe record as for a
 fresh evaluator.  A set of fixed histories runs first (never cut by the time budget), a random stream of histories follows.
+
+Red-team round 2 (FIXED_RT2 first, then the random stream): integer arguments in numpy encodings (periods of all four callbacks,
+every valid index of get_value); names of metrics / observables that coincide with attributes of the evaluator objects, read through
+evaluator[name] (attribute access for such names is info-only); clear_history() called by a user callback while a run goes on
+(expected record = the probe's events after the clearing, the CSV log keeps everything); the dict handed out as `last` among the
+objects a "scribble" op edits (top level only; `last` itself is then the caller's until the next evaluation); ModelSaver with a
+relative folder_path while the process changes its working directory (before the fit / inside a callback): the files belong in
+the folder the saver created at construction.
 """
 import os, csv, json, math, itertools, time
 import numpy as np
@@ -43,9 +51,25 @@ RULE = ("sessions = (state kind in positive/complex/density-matrix, tiny sizes; 
         "reinitialize_parameters, parameter rebinding, load_state_dict, copy_, network replacement, another state object, with the "
         "accessors read only at some steps (all / arrays first / arrays only / all but arrays / none) and the next run reaching the "
         "same, a larger or a smaller number of evaluations (fixed histories first, then a random stream); "
+        "red-team round 2: periods of every callback and every valid get_value index also as numpy integers (int64 / int32 / int16 / uint8 / intp / "
+        "an element of an integer array); metrics / observables whose NAME is also an attribute, property or method of the evaluator object "
+        "(log, last, period, epochs, names, metrics, past_values, get_value, ...) read through the documented subscript alias; "
+        "clear_history() called by a user callback DURING a run (at the start / at the end of an epoch; also with the accessors read in-run); "
+        "the dict handed out as `last` edited by the caller (top level) among the scribbled objects; ModelSaver given a RELATIVE folder "
+        "(str / ./str / Path) with the working directory changed before the fit or by a callback at an epoch start; "
         "a session is non-trivial when at least one epoch fires and (period > 1 => at least one epoch does not)")
 ASSUMPTIONS = ["torch.save/torch.load round-trip tensors and plain Python metadata exactly (C11 covers save/load itself)",
-               "System.statistics is deterministic given the torch RNG state (used to learn the values an observable evaluates to)"]
+               "System.statistics is deterministic given the torch RNG state (used to learn the values an observable evaluates to)",
+               "for a metric / observable whose name is also an attribute of the evaluator object only the subscript form evaluator[name] is demanded "
+               "(attribute access finds the object's own attribute first: Python semantics; histogram 'info:getattr(evaluator, name) ...')",
+               "the INNER statistics dicts reachable through ObservableEvaluator.last[name] / get_value(name) are the recorded objects themselves on the "
+               "unchanged tree (only the top level of `last` is a copy) and the statement does not promise copies: the caller's edits are generated for "
+               "the top level of `last` only (both evaluators), and `last` is not looked at between such an edit and the next evaluation / clearing",
+               "OUT of scope: a statistic name that is also an attribute of ObservableStatistics ('data') — the statistics an evaluator exposes are the four "
+               "fixed by System.statistics (mean, variance, std_error, num_samples), none of which is an attribute of that class",
+               "OUT of scope: a metric named 'epoch' together with a CSV log (the name of the first CSV column; the statement fixes no rule for that clash)",
+               "indices / periods given as floats are not generated (documented type: int; a float index is refused by list indexing on the "
+               "unchanged tree, a float period happens to pass through `epoch % period` there but nothing is demanded of it)"]
 
 ERR = {IndexError: 0, KeyError: 1, AttributeError: 2, TypeError: 3, ValueError: 4}
 DATA = np.array([[0, 1], [1, 1], [0, 0], [1, 0], [1, 1], [0, 1]], dtype=float)
@@ -90,9 +114,11 @@ STATE_OPS = ("reinit", "rebind", "reload", "copy_", "swapnet", "swap")
 
 
 def scribble(ctx, held):
-    """in-place edit of everything the accessors returned earlier (arrays of recorded values / epochs, name lists);
-    read-only arrays are left alone (returning one is legitimate)"""
-    k = 0
+    """in-place edit of everything the accessors returned earlier (arrays of recorded values / epochs, name lists, the dict
+    handed out as `last`: every TOP-LEVEL entry replaced and a key added — the inner statistics dicts of an
+    ObservableEvaluator are left alone, see ASSUMPTIONS); read-only arrays are left alone (returning one is legitimate).
+    Returns the number of dicts edited (the caller then knows that `last` holds the caller's edits until the next evaluation)."""
+    k = nd = 0
     for a in held:
         try:
             if isinstance(a, np.ndarray):
@@ -102,10 +128,58 @@ def scribble(ctx, held):
             elif isinstance(a, list):
                 a.append("scribbled")
                 k += 1
+            elif isinstance(a, dict):
+                for key in list(a):
+                    a[key] = {"mean": -777.0, "variance": -777.0, "std_error": -777.0, "num_samples": -777} if isinstance(a[key], dict) else -777.0
+                a["scribbled"] = 1
+                nd += 1
         except Exception:
             pass
     del held[:]
     ctx.count("history:arrays scribbled", k)
+    ctx.count("history:`last` dicts scribbled", nd)
+    return nd
+
+
+# encodings of integer arguments (periods, indices of get_value): the documented type is int; numpy integers are what numpy code
+# hands over (np.argmin(ev["q"]), np.arange(n)[i], len-like results of reductions)
+PTYPES = ("int", "np.int64", "np.int32", "np.int16", "np.uint8", "np.intp")
+
+
+def as_ptype(p, ptype):
+    if not ptype or ptype == "int":
+        return int(p)
+    return getattr(np, ptype.split(".", 1)[1])(p)
+
+
+_IDX_ROT = [0]
+
+
+def index_encodings(i, n):
+    """a valid index of get_value as a Python int and in one numpy integer encoding (rotating over the encodings)"""
+    _IDX_ROT[0] += 1
+    r = _IDX_ROT[0] % 6
+    if r == 0:
+        return [i, np.int64(i)]
+    if r == 1:
+        return [i, np.int32(i)]
+    if r == 2:
+        return [i, np.arange(-n - 1, n + 1)[i + n + 1]]          # an element of an integer array
+    if r == 3:
+        return [i, np.intp(i)]
+    if r == 4:
+        return [i, np.int8(i) if -128 <= i < 128 else np.int16(i)]
+    return [i, np.uint8(i) if 0 <= i < 256 else np.int64(i)]
+
+
+def colliding(obj, name):
+    """the name of a metric / observable that is ALSO an attribute of the evaluator object (instance attribute, property or
+    method): attribute access finds the attribute first (Python semantics), the documented subscript alias must still
+    give the recorded values"""
+    try:
+        return name in vars(obj) or hasattr(type(obj), name)
+    except Exception:
+        return False
 
 
 def mutate_state(s, spec, op, k):
@@ -151,7 +225,18 @@ def canon(x):
 
 
 def same_vals(a, b):
-    return canon(a) == canon(b)
+    try:
+        return canon(a) == canon(b)
+    except Exception:           # not numbers at all (e.g. an accessor handed out some other object)
+        return False
+
+
+def show(x):
+    """canon for the detail of a failure record: never raises"""
+    try:
+        return canon(x)
+    except Exception:
+        return repr(x)[:120]
 
 
 def parse_cell(x):
@@ -321,6 +406,72 @@ def first_w(snap):
     return float(snap[net][key].flatten()[0])
 
 
+class HistBase:
+    """which probe events make up an evaluator's history: everything recorded after the latest clear_history(), whether that
+    was called between two runs or by a user callback while a run goes on; and whether the dict handed out as `last` still
+    holds the caller's own edits (until the next evaluation or clearing replaces it)"""
+
+    def __init__(self, probe, period):
+        self.probe, self.p = probe, period
+        self.fixed = 0              # index of the first probe event after the latest clearing (between runs)
+        self.pending = None         # (index of the run's first event, epoch, "start" | "end") of an in-run clearing
+        self.dirty = None           # index of the first probe event after the caller edited `last`
+
+    def cleared_now(self):
+        self.fixed, self.pending, self.dirty = len(self.probe.events), None, None
+
+    def cleared_in_run(self, n0, epoch, where):
+        self.pending, self.dirty = (n0, epoch, where), None
+
+    def base(self):
+        if self.pending is None:
+            return self.fixed
+        n0, e, where = self.pending
+        for i in range(n0, len(self.probe.events)):
+            ep = self.probe.events[i]["epoch"]
+            if ep > e or (ep == e and where == "start"):
+                return i
+        return len(self.probe.events)
+
+    def last_scribbled(self):
+        self.dirty = len(self.probe.events)
+
+    def last_dirty(self):
+        return self.dirty is not None and not any(ev["epoch"] % self.p == 0 for ev in self.probe.events[self.dirty:])
+
+
+def inrun_clearer(evaluator, hb, n0, inclear, where):
+    """a user callback that drops the evaluations made so far WHILE the run goes on: at the START of epoch e (placed before the
+    evaluator: the evaluation of epoch e is kept) or at the END of epoch e (placed after it: that evaluation is dropped too)"""
+    from qucumber.callbacks import LambdaCallback
+    e, when = int(inclear[0]), inclear[1]
+
+    def at_start(st, epoch):
+        if epoch == e and when == "start":
+            evaluator.clear_history()
+            hb.cleared_in_run(n0, e, "start")
+
+    def at_end(st, epoch):
+        if epoch == e and when == "end":
+            evaluator.clear_history()
+            hb.cleared_in_run(n0, e, "end")
+    if where == "before":
+        return LambdaCallback(on_epoch_start=at_start)
+    return LambdaCallback(on_epoch_end=at_end)
+
+
+def split_at_clear(evs, inclear):
+    """probe events of one run -> [events before the in-run clearing, events after it] (one part if there was none or the run
+    was cut short before the clearing epoch)"""
+    if not inclear:
+        return [evs]
+    e, when = int(inclear[0]), inclear[1]
+    if not any(ev["epoch"] >= e for ev in evs):
+        return [evs]
+    before = [ev for ev in evs if ev["epoch"] < e or (ev["epoch"] == e and when == "end")]
+    return [before, evs[len(before):]]
+
+
 # ------------------------------------------------------------------ MetricEvaluator sessions
 def metric_session(ctx, spec):
     import torch
@@ -345,12 +496,17 @@ def metric_session(ctx, spec):
     if spec["state"] == "positive" and spec.get("real_metric", True):
         zdata = torch.tensor(DATA, dtype=torch.double)
         metrics["nll"] = lambda state, **kw: ts.NLL(state, zdata, kw["space"])
+    # metrics whose NAME is also the name of an attribute of the evaluator object ("log" for a log-likelihood, "last", "period", ...)
+    for j, nm in enumerate(spec.get("extra_names") or []):
+        metrics[nm] = (lambda j: (lambda state, **kw: np.float64(script[(clock.t + 1 + j) % len(script)] + 1.0 + j)))(j)
+        ctx.count("metric name that is also an attribute of the evaluator:" + nm)
     names = list(metrics)
     logf = os.path.join(ctx.scratch, "mlog_%d.csv" % ctx.evaluations) if spec.get("log", True) else None
     if logf and os.path.exists(logf):
         os.remove(logf)
     verbose = bool(spec.get("verbose", False))
-    pgiven = np.int64(p) if spec.get("ptype") == "np.int64" else p
+    pgiven = as_ptype(p, spec.get("ptype"))
+    ctx.count("period given as:" + (spec.get("ptype") or "int"))
     form = spec.get("form", 0)      # how the optional arguments are passed
     if form == 1:
         mk = lambda: MetricEvaluator(pgiven, metrics, verbose, logf, space=space)
@@ -375,61 +531,75 @@ def metric_session(ctx, spec):
                           on_train_end=lambda st: lam_seen.append(("te",)))][variant]
     cbs = cbs + [LambdaCallback(), lam]
     ctx.count("lambda_callback_variant:%d" % variant)
-    hist_base = [0]             # index of the first probe event after the latest clear_history
+    hb = HistBase(probe, p)     # which probe events make up the evaluator's history (moves at every clear_history)
     held_inrun = []
     if spec.get("inrun"):       # a user callback after the evaluator reads its accessors while the run goes on
         def inrun_read(st, epoch):
-            want = [(ev["epoch"], ev["values"]) for ev in probe.events[hist_base[0]:] if ev["epoch"] % p == 0]
-            check_metric_state(ctx, case, me, names, p, want, None, None, logf, "inrun", held_inrun)
+            want = [(ev["epoch"], ev["values"]) for ev in probe.events[hb.base():] if ev["epoch"] % p == 0]
+            check_metric_state(ctx, case, me, names, p, want, None, None, logf, "inrun", held_inrun, skip_last=hb.last_dirty())
             del held_inrun[:]
         cbs = cbs + [LambdaCallback(on_epoch_end=inrun_read)]
         ctx.count("history:accessors read during the runs")
     exp_past, exp_log, mops = [], [], []
     fired_any = skipped_any = False
     reads = spec.get("reads") or ["all"] * len(spec["ops"])
-    held = []                   # arrays / lists the accessors returned so far (edited in place by a "scribble" op)
+    held = []                   # arrays / lists / dicts the accessors returned so far (edited in place by a "scribble" op)
     for k, (op, mode) in enumerate(zip(spec["ops"], reads)):
         ctx.count("history:op=%s,read=%s" % (op[0], mode))
         if op[0] == "clear":
             me.clear_history()
             exp_past = []
-            hist_base[0] = len(probe.events)
+            hb.cleared_now()
             mops.append([0])
         elif op[0] == "scribble":
-            scribble(ctx, held)
+            if scribble(ctx, held):
+                hb.last_scribbled()
         elif op[0] in STATE_OPS:
             ok, s = ctx.call("legal change of the trained state between runs (%s)" % op[0], case, mutate_state, s, spec, op[0], k)
             if not ok:
                 return
         else:
-            _, start, end, stop = op
+            start, end, stop = op[1:4]
+            inclear = op[4] if len(op) > 4 else None      # [epoch, "start" | "end"]: clear_history() called by a user callback DURING this run
             n0 = len(probe.events)
-            if not do_fit(ctx, "fit with MetricEvaluator and LambdaCallbacks with default hooks", case, s, extra, start, end, cbs, stop):
+            run_cbs = cbs
+            if inclear:
+                i_me = cbs.index(me)
+                run_cbs = cbs[:i_me] + [inrun_clearer(me, hb, n0, inclear, where="before")] + [me] + \
+                    [inrun_clearer(me, hb, n0, inclear, where="after")] + cbs[i_me + 1:]
+                ctx.count("history:clear_history called by a callback during a run (%s of an epoch)" % inclear[1])
+            if not do_fit(ctx, "fit with MetricEvaluator and LambdaCallbacks with default hooks", case, s, extra, start, end, run_cbs, stop):
                 return
             evs = probe.events[n0:]
             ctx.require("a LambdaCallback given only some hooks sees every EpochEnd of the run",
                         [x[1] for x in lam_seen if x[0] == "ee"] == [ev["epoch"] for ev in probe.events], case,
                         {"seen": lam_seen[-12:], "epochs": [ev["epoch"] for ev in probe.events][-12:]})
-            for ev in evs:
-                if ev["epoch"] % p == 0:
-                    exp_past.append((ev["epoch"], ev["values"]))
-                    exp_log.append((ev["epoch"], ev["values"]))
-                    fired_any = True
-                else:
-                    skipped_any = True
-            mops.append([1, [[ev["epoch"], [ev["values"][n] for n in names]] for ev in evs]])
+            parts = split_at_clear(evs, inclear)
+            for pi, part in enumerate(parts):
+                if pi:                                      # the clearing happened between the two parts of this run
+                    exp_past = []
+                    mops.append([0])
+                for ev in part:
+                    if ev["epoch"] % p == 0:
+                        exp_past.append((ev["epoch"], ev["values"]))
+                        exp_log.append((ev["epoch"], ev["values"]))
+                        fired_any = True
+                    else:
+                        skipped_any = True
+                mops.append([1, [[ev["epoch"], [ev["values"][n] for n in names]] for ev in part]])
             ctx.traces += 1
-        check_metric_state(ctx, case, me, names, p, exp_past, exp_log, mops, logf, mode, held)
+        check_metric_state(ctx, case, me, names, p, exp_past, exp_log, mops, logf, mode, held, skip_last=hb.last_dirty())
     if reads[-1] != "all":      # whatever was left unread is read at the end
-        check_metric_state(ctx, case, me, names, p, exp_past, exp_log, mops, logf, "all", held)
+        check_metric_state(ctx, case, me, names, p, exp_past, exp_log, mops, logf, "all", held, skip_last=hb.last_dirty())
     ctx.require("metric kwargs are passed to every metric call", all(k == ["space"] for k in seen_kwargs), case, seen_kwargs[:3])
     ctx.case({"session": "metric", "state": spec["state"], "p": p, "ops": spec["ops"], "reads": spec.get("reads"), "tseed": spec["tseed"]},
              nontrivial=fired_any and (p == 1 or skipped_any))
     ctx.count("metric:period=%d" % p); ctx.count("state:" + spec["state"])
 
 
-def check_metric_state(ctx, case, me, names, p, exp_past, exp_log, mops, logf, mode="all", held=None):
-    """mode: which accessors are read now (READ_MODES); held collects the returned arrays / lists"""
+def check_metric_state(ctx, case, me, names, p, exp_past, exp_log, mops, logf, mode="all", held=None, skip_last=False):
+    """mode: which accessors are read now (READ_MODES); held collects the returned arrays / lists / dicts;
+    skip_last: the caller edited the dict handed out as `last` and nothing was evaluated since (it holds the caller's edits)"""
     n = len(exp_past)
     held = held if held is not None else []
     if mode == "none":
@@ -449,29 +619,50 @@ def check_metric_state(ctx, case, me, names, p, exp_past, exp_log, mops, logf, m
         for nm in names:
             want = [v[nm] for _, v in exp_past]
             for form, get in (("getitem", lambda: me[nm]), ("getattr", lambda: getattr(me, nm))):
+                if form == "getattr" and colliding(me, nm):
+                    # attribute access finds the evaluator's own attribute of that name first: nothing is demanded of it
+                    info(ctx, "getattr(evaluator, name) for a name that is also an attribute of the evaluator gives the recorded values",
+                         res(get, canon) == [0, canon(want)])
+                    continue
                 ok, arr = ctx.call("evaluator[%s]" % form, case, get)
                 if ok:
                     ctx.require("per-name array == values computed at the recorded epochs", same_vals(arr, want), case,
-                                {"name": nm, "got": canon(arr), "want": canon(want), "read": mode})
+                                {"name": nm, "form": form, "got": show(arr),
+                                 "want": canon(want), "read": mode})
                     held.append(arr)
 
     def chk_get_value():
         for nm in names:
             for i in list(range(-n - 2, n + 2)) + [None]:
                 valid = (i is None and n > 0) or (i is not None and -n <= i < n)
+                if valid and i is not None:
+                    # the index as a Python int and as a numpy integer (np.argmin(ev[name]), np.arange(n)[i], ...)
+                    want_i = exp_past[i][1][nm]
+                    for ienc in index_encodings(i, n):
+                        r = res(lambda: me.get_value(nm, ienc))
+                        ctx.require("get_value(name, index) == value computed at that evaluation", r[0] == 0 and same_vals(r[1], want_i),
+                                    case, {"name": nm, "index": i, "index_type": type(ienc).__name__, "got": show(r), "want": show(want_i)})
+                    ctx.count("get_value index given as:" + type(ienc).__name__)
+                    continue
                 r = res(lambda: me.get_value(nm, i) if i is not None else me.get_value(nm))
                 if valid:
-                    want_i = exp_past[-1 if i is None else i][1][nm]
+                    want_i = exp_past[-1][1][nm]
                     ctx.require("get_value(name, index) == value computed at that evaluation", r[0] == 0 and same_vals(r[1], want_i),
-                                case, {"name": nm, "index": i, "got": canon(r), "want": canon(want_i)})
+                                case, {"name": nm, "index": i, "got": show(r), "want": show(want_i)})
                 else:
                     info(ctx, "get_value out-of-range index -> IndexError", r == [1, 0])
 
     def chk_last_names():
         want_last = exp_past[-1][1] if n else {}
-        ctx.require("evaluator.last == values of the most recent evaluation",
-                    list(me.last) == list(want_last) and same_vals(list(me.last.values()), list(want_last.values())), case,
-                    {"last": {k: float(v) for k, v in me.last.items()}, "want": {k: float(v) for k, v in want_last.items()}})
+        last = me.last
+        if skip_last:
+            ctx.count("history:`last` not looked at (it holds the caller's own edits until the next evaluation)")
+        else:
+            ctx.require("evaluator.last == values of the most recent evaluation",
+                        isinstance(last, dict) and list(last) == list(want_last) and same_vals(list(last.values()), list(want_last.values())), case,
+                        {"last": repr(last)[:200], "want": {k: float(v) for k, v in want_last.items()}})
+        if isinstance(last, dict):
+            held.append(last)
         nms = me.names
         ctx.require("evaluator.names == metric names", list(nms) == names, case)
         held.append(nms)
@@ -511,10 +702,11 @@ def check_metric_state(ctx, case, me, names, p, exp_past, exp_log, mops, logf, m
     implq = [res(lambda: me.get_value(nm, i) if i is not None else me.get_value(nm)) for nm, i in allq]
     impl = [len(me), [int(e) for e in me.epochs],
             [res(lambda: me[nm], canon) for nm in names],
-            [[codes(k), float(v)] for k, v in me.last.items()],
+            [[codes(k), float(v)] for k, v in me.last.items()] if not skip_last else "edited by the caller",
             [[r[0], [cell_enc(x) for x in r[1:]]] for r in body] if body is not None else "no log file",
             [r for r, v in zip(implq, vmask) if v]]
-    modv = list(mod[:4]) + [mod[4] if body is not None else "no log file"] + [[r for r, v in zip(mod[5], vmask) if v]]
+    modv = list(mod[:3]) + [mod[3] if not skip_last else "edited by the caller", mod[4] if body is not None else "no log file"] + \
+        [[r for r, v in zip(mod[5], vmask) if v]]
     ctx.agree_exact("MetricEvaluator accessors vs model", canon(impl), canon(modv), case)
     # invalid indices / untracked names: not constrained by the property, histogram only
     info(ctx, "get_value invalid index or untracked name (error kind)",
@@ -537,13 +729,18 @@ def obs_session(ctx, spec):
     p = spec["period"]
     clock = C["Clock"]()
     observables = [SigmaZ(), C["StubObs"]("Stub", clock, spec["script"])]
+    # observables whose NAME is also the name of an attribute of the evaluator object ("period", "last", "log", ...)
+    for j, nm in enumerate(spec.get("extra_names") or []):
+        observables.append(C["StubObs"](nm, clock, spec["script"][j + 1:] + spec["script"][:j + 1]))
+        ctx.count("observable name that is also an attribute of the evaluator:" + nm)
     names = [o.name for o in observables]
     kw = {"num_samples": 4, "num_chains": 4, "burn_in": 1, "steps": 1}
     logf = os.path.join(ctx.scratch, "olog_%d.csv" % ctx.evaluations) if spec.get("log", True) else None
     if logf and os.path.exists(logf):
         os.remove(logf)
     verbose = bool(spec.get("verbose", False))
-    pgiven = np.int64(p) if spec.get("ptype") == "np.int64" else p
+    pgiven = as_ptype(p, spec.get("ptype"))
+    ctx.count("period given as:" + (spec.get("ptype") or "int"))
     form = spec.get("form", 0)
     if form == 1:
         mk = lambda: ObservableEvaluator(pgiven, observables, verbose, logf, **kw)
@@ -557,14 +754,14 @@ def obs_session(ctx, spec):
     ctx.count("evaluator_options:verbose=%s,log=%s" % (verbose, logf is not None))
     probe = C["Probe"](C["obs_wouldbe"](observables, kw))
     cbs = [clock, probe, oe]        # the probe must sit right before the evaluator (same RNG state)
-    hist_base = [0]
+    hb = HistBase(probe, p)
     held_inrun = []
     if spec.get("inrun"):
         from qucumber.callbacks import LambdaCallback
 
         def inrun_read(st, epoch):
-            want = [(ev["epoch"], ev["values"]) for ev in probe.events[hist_base[0]:] if ev["epoch"] % p == 0]
-            check_obs_state(ctx, case, oe, names, p, want, None, None, logf, "inrun", held_inrun)
+            want = [(ev["epoch"], ev["values"]) for ev in probe.events[hb.base():] if ev["epoch"] % p == 0]
+            check_obs_state(ctx, case, oe, names, p, want, None, None, logf, "inrun", held_inrun, skip_last=hb.last_dirty())
             del held_inrun[:]
         cbs = cbs + [LambdaCallback(on_epoch_end=inrun_read)]
         ctx.count("history:accessors read during the runs")
@@ -577,32 +774,45 @@ def obs_session(ctx, spec):
         if op[0] == "clear":
             oe.clear_history()
             exp_past = []
-            hist_base[0] = len(probe.events)
+            hb.cleared_now()
             mops.append([0])
         elif op[0] == "scribble":
-            scribble(ctx, held)
+            if scribble(ctx, held):
+                hb.last_scribbled()
         elif op[0] in STATE_OPS:
             ok, s = ctx.call("legal change of the trained state between runs (%s)" % op[0], case, mutate_state, s, spec, op[0], k)
             if not ok:
                 return
         else:
-            _, start, end, stop = op
+            start, end, stop = op[1:4]
+            inclear = op[4] if len(op) > 4 else None      # [epoch, "start" | "end"]: clear_history() called by a user callback DURING this run
             n0 = len(probe.events)
-            if not do_fit(ctx, "fit with ObservableEvaluator", case, s, extra, start, end, cbs, stop):
+            run_cbs = cbs
+            if inclear:
+                # the clearing callbacks never touch the torch RNG, so the probe still sees the evaluator's RNG state
+                i_oe = cbs.index(oe)
+                run_cbs = cbs[:i_oe - 1] + [inrun_clearer(oe, hb, n0, inclear, where="before")] + cbs[i_oe - 1:i_oe + 1] + \
+                    [inrun_clearer(oe, hb, n0, inclear, where="after")] + cbs[i_oe + 1:]
+                ctx.count("history:clear_history called by a callback during a run (%s of an epoch)" % inclear[1])
+            if not do_fit(ctx, "fit with ObservableEvaluator", case, s, extra, start, end, run_cbs, stop):
                 return
             evs = probe.events[n0:]
-            for ev in evs:
-                if ev["epoch"] % p == 0:
-                    exp_past.append((ev["epoch"], ev["values"])); exp_log.append((ev["epoch"], ev["values"]))
-                    fired_any = True
-                else:
-                    skipped_any = True
-            mops.append([1, [[ev["epoch"], [[ev["values"][nm][k] for k in ("mean", "variance", "std_error", "num_samples")]
-                                            for nm in names]] for ev in evs]])
+            for pi, part in enumerate(split_at_clear(evs, inclear)):
+                if pi:                                      # the clearing happened between the two parts of this run
+                    exp_past = []
+                    mops.append([0])
+                for ev in part:
+                    if ev["epoch"] % p == 0:
+                        exp_past.append((ev["epoch"], ev["values"])); exp_log.append((ev["epoch"], ev["values"]))
+                        fired_any = True
+                    else:
+                        skipped_any = True
+                mops.append([1, [[ev["epoch"], [[ev["values"][nm][k] for k in ("mean", "variance", "std_error", "num_samples")]
+                                                for nm in names]] for ev in part]])
             ctx.traces += 1
-        check_obs_state(ctx, case, oe, names, p, exp_past, exp_log, mops, logf, mode, held)
+        check_obs_state(ctx, case, oe, names, p, exp_past, exp_log, mops, logf, mode, held, skip_last=hb.last_dirty())
     if reads[-1] != "all":
-        check_obs_state(ctx, case, oe, names, p, exp_past, exp_log, mops, logf, "all", held)
+        check_obs_state(ctx, case, oe, names, p, exp_past, exp_log, mops, logf, "all", held, skip_last=hb.last_dirty())
     ctx.case({"session": "observable", "state": spec["state"], "p": p, "ops": spec["ops"], "reads": spec.get("reads"), "tseed": spec["tseed"]},
              nontrivial=fired_any and (p == 1 or skipped_any))
     ctx.count("observable:period=%d" % p); ctx.count("state:" + spec["state"])
@@ -612,7 +822,7 @@ def stats_list(d):
     return [float(d[k]) for k in ("mean", "variance", "std_error", "num_samples")]
 
 
-def check_obs_state(ctx, case, oe, names, p, exp_past, exp_log, mops, logf, mode="all", held=None):
+def check_obs_state(ctx, case, oe, names, p, exp_past, exp_log, mops, logf, mode="all", held=None, skip_last=False):
     n = len(exp_past)
     held = held if held is not None else []
     if mode == "none":
@@ -629,33 +839,56 @@ def check_obs_state(ctx, case, oe, names, p, exp_past, exp_log, mops, logf, mode
 
     def chk_arrays():
         for nm in names:
+            clash = colliding(oe, nm)       # attribute access finds the evaluator's own attribute of that name: only the subscript alias is demanded
+            if clash:
+                info(ctx, "getattr(evaluator, name) for a name that is also an attribute of the evaluator gives the recorded statistics",
+                     res(lambda: getattr(getattr(oe, nm), "mean"), canon) == [0, canon([v[nm]["mean"] for _, v in exp_past])])
             for stat, plural in (("mean", "means"), ("variance", "variances"), ("std_error", "std_errors")):
                 want = [v[nm][stat] for _, v in exp_past]
-                for form, get in ((stat, lambda: getattr(getattr(oe, nm), stat)), (plural, lambda: getattr(oe[nm], plural)),
-                                  ("[%s]" % plural, lambda: oe[nm][plural])):
+                for form, get in ((stat, (lambda: getattr(oe[nm], stat)) if clash else (lambda: getattr(getattr(oe, nm), stat))),
+                                  (plural, lambda: getattr(oe[nm], plural)), ("[%s]" % plural, lambda: oe[nm][plural])):
                     ok, arr = ctx.call("ObservableStatistics.%s" % form, case, get)
                     if ok:
                         ctx.require("ObservableStatistics array (singular and plural name) == statistics computed at the recorded epochs",
-                                    same_vals(arr, want), case, {"obs": nm, "stat": form, "got": canon(arr), "want": canon(want), "read": mode})
+                                    same_vals(arr, want), case, {"obs": nm, "stat": form, "got": show(arr), "want": canon(want), "read": mode})
                         held.append(arr)
 
     def chk_get_value():
         for nm in names:
             for i in list(range(-n - 2, n + 2)) + [None]:
                 valid = (i is None and n > 0) or (i is not None and -n <= i < n)
+                if valid and i is not None:
+                    # the index as a Python int and as a numpy integer
+                    want_i = stats_list(exp_past[i][1][nm])
+                    for ienc in index_encodings(i, n):
+                        r = res(lambda: oe.get_value(nm, ienc), stats_list)
+                        ctx.require("get_value(name, index) == value computed at that evaluation", r[0] == 0 and same_vals(r[1], want_i),
+                                    case, {"name": nm, "index": i, "index_type": type(ienc).__name__, "got": show(r), "want": show(want_i)})
+                    ctx.count("get_value index given as:" + type(ienc).__name__)
+                    continue
                 r = res(lambda: oe.get_value(nm, i) if i is not None else oe.get_value(nm), stats_list)
                 if valid:
-                    want_i = stats_list(exp_past[-1 if i is None else i][1][nm])
+                    want_i = stats_list(exp_past[-1][1][nm])
                     ctx.require("get_value(name, index) == value computed at that evaluation", r[0] == 0 and same_vals(r[1], want_i),
-                                case, {"name": nm, "index": i, "got": canon(r), "want": canon(want_i)})
+                                case, {"name": nm, "index": i, "got": show(r), "want": show(want_i)})
                 else:
                     info(ctx, "get_value out-of-range index -> IndexError", r == [1, 0])
 
     def chk_last_names():
         want_last = exp_past[-1][1] if n else {}
-        ctx.require("evaluator.last == values of the most recent evaluation",
-                    list(oe.last) == list(want_last) and all(same_vals(stats_list(oe.last[k]), stats_list(want_last[k])) for k in want_last),
-                    case, {"last_keys": list(oe.last)})
+        last = oe.last
+        if skip_last:
+            ctx.count("history:`last` not looked at (it holds the caller's own edits until the next evaluation)")
+        else:
+            try:
+                okl = isinstance(last, dict) and list(last) == list(want_last) and \
+                    all(same_vals(stats_list(last[k]), stats_list(want_last[k])) for k in want_last)
+            except Exception:
+                okl = False
+            ctx.require("evaluator.last == values of the most recent evaluation", okl, case,
+                        {"last_keys": list(last) if isinstance(last, dict) else repr(last)[:100]})
+        if isinstance(last, dict):
+            held.append(last)           # the TOP level of this dict is the caller's to edit (see scribble)
         nms = oe.names
         ctx.require("evaluator.names == observable names", list(nms) == names, case)
         held.append(nms)
@@ -713,12 +946,12 @@ def check_obs_state(ctx, case, oe, names, p, exp_past, exp_log, mops, logf, mode
         return [0, [r for k, r in enumerate(d[1]) if (k < NV) == valid]]
     impl_data = [data_of(nm) for nm in names]
     impl = [len(oe), [int(e) for e in oe.epochs], [split_data(d, True) for d in impl_data],
-            [[codes(k), dict_enc(v)] for k, v in oe.last.items()],
+            [[codes(k), dict_enc(v)] for k, v in oe.last.items()] if not skip_last else "edited by the caller",
             [[r[0], [cell_enc(x) for x in r[1:]]] for r in body] if body is not None else "no log file",
             [r for r, v in zip(implq, vmask) if v],
             [codes(f) for f in fields[1:]]]
-    modv = [mod[0], mod[1], [split_data(d, True) for d in mod[2]], mod[3], mod[4] if body is not None else "no log file",
-            [r for r, v in zip(mod[5], vmask) if v], mod[6]]
+    modv = [mod[0], mod[1], [split_data(d, True) for d in mod[2]], mod[3] if not skip_last else "edited by the caller",
+            mod[4] if body is not None else "no log file", [r for r, v in zip(mod[5], vmask) if v], mod[6]]
     ctx.agree_exact("ObservableEvaluator accessors vs model", canon(impl), canon(modv), case)
     info(ctx, "get_value invalid index or untracked name (error kind)",
          canon([r for r, v in zip(implq, vmask) if not v]) == canon([r for r, v in zip(mod[5], vmask) if not v]))
@@ -768,8 +1001,17 @@ def multi_session(ctx, spec):
 
 # ------------------------------------------------------------------ ModelSaver / Logger sessions
 def saver_session(ctx, spec):
+    """the working directory of the process is restored whatever happens (sessions with a relative folder change it)"""
+    cwd = os.getcwd()
+    try:
+        return _saver_session(ctx, spec)
+    finally:
+        os.chdir(cwd)
+
+
+def _saver_session(ctx, spec):
     import torch
-    from qucumber.callbacks import ModelSaver, Logger
+    from qucumber.callbacks import ModelSaver, Logger, LambdaCallback
     C = classes()
     case = {"session": "saver", "spec": spec}
     s, extra = make_state(spec)
@@ -778,6 +1020,13 @@ def saver_session(ctx, spec):
     #      earlier saver / nested path that does not exist yet; given as str, str with a trailing separator, or pathlib.Path
     fcfg = spec.get("folder", "fresh")
     root = os.path.join(ctx.scratch, "sv_%d" % ctx.evaluations)
+    farg = spec.get("folder_arg", "str")
+    base = None
+    if farg.startswith("relative"):     # the saver is built in the working directory `base` and given a path relative to it
+        base = os.path.join(ctx.scratch, "svcwd_%d" % ctx.evaluations)
+        root = os.path.join(base, "checkpoints")
+        os.makedirs(base, exist_ok=True)
+        os.makedirs(base + "_elsewhere", exist_ok=True)
     tmpl = spec.get("file_name", "ck_{}.pt")
     pre = {}                    # pre-existing file name -> bytes
     if fcfg == "nested":
@@ -794,8 +1043,18 @@ def saver_session(ctx, spec):
             with open(os.path.join(folder, f), "wb") as fh:
                 fh.write(b)
     import pathlib
-    fgiven = {"str": folder, "slash": folder + os.sep, "path": pathlib.Path(folder)}[spec.get("folder_arg", "str")]
-    ctx.count("saver_folder:%s/%s" % (fcfg, spec.get("folder_arg", "str"))); ctx.count("saver_file_name:" + tmpl)
+    chdir = spec.get("chdir")            # None | ["before-fit"] | ["epoch", e]: the process changes its working directory after the saver was built
+    if base is not None:
+        # a RELATIVE folder_path: it names a folder under the working directory the saver was constructed in; the files
+        # belong in THAT folder wherever the process goes afterwards (a user callback / metric / script that chdir()s)
+        os.chdir(base)
+        rel = os.path.relpath(folder, base)
+        fgiven = {"relative": rel, "relative-dot": os.path.join(".", rel), "relative-path": pathlib.Path(rel)}[farg]
+        ctx.count("saver_chdir:%s" % (chdir[0] if chdir else "never"))
+    else:
+        chdir = None
+        fgiven = {"str": folder, "slash": folder + os.sep, "path": pathlib.Path(folder)}[farg]
+    ctx.count("saver_folder:%s/%s" % (fcfg, farg)); ctx.count("saver_file_name:" + tmpl)
     probe = C["Probe"]()
     the_dict = {"tag": 7, "lst": [1, 2], "nested": {"a": [1, {"b": 2.5}], "c": "x"}}
     the_dict_copy = json.loads(json.dumps(the_dict))
@@ -805,7 +1064,8 @@ def saver_session(ctx, spec):
         md_calls.append(int(epoch))
         return {"epoch": int(epoch), "sid": len(probe.snaps) - 1, "w": first_w(C["snapshot"](state))}
     md = {"none": None, "dict": the_dict, "callable": md_fn}[md_kind]
-    pgiven = np.int64(p) if spec.get("ptype") == "np.int64" else p
+    pgiven = as_ptype(p, spec.get("ptype"))
+    ctx.count("period given as:" + (spec.get("ptype") or "int"))
     form = spec.get("form", 0)
     if form == 1:                       # everything positional
         mk = lambda: ModelSaver(pgiven, fgiven, tmpl, True if save_initial is None else save_initial, md, md_only)
@@ -839,14 +1099,19 @@ def saver_session(ctx, spec):
         return orig_save(obj, f, *a, **k)
     dirp = C["DirProbe"](folder, saves)
     log_calls = []
-    lg = Logger(spec["lg_period"], logger_fn=log_calls.append,
+    lg_ptype = spec.get("lg_ptype") or PTYPES[spec["tseed"] % len(PTYPES)]       # the loggers' periods in numpy integer encodings too
+    ctx.count("logger period given as:" + lg_ptype)
+    lg = Logger(as_ptype(spec["lg_period"], lg_ptype), logger_fn=log_calls.append,
                 msg_gen=lambda state, epoch, **kw: (int(epoch), first_w(C["snapshot"](state)), sorted(kw.items())), tag=3)
     # default forms: Logger(period) prints msg_gen's default text; Logger(period, logger_fn=...) with the default msg_gen
     lp_print, lp_text = 1 + (spec["tseed"] % 5), 1 + ((spec["tseed"] // 5) % 5)
     text_calls, printed = [], []
     lg_print = Logger(lp_print)
-    lg_text = Logger(lp_text, logger_fn=text_calls.append, tag=3)
+    lg_text = Logger(as_ptype(lp_text, PTYPES[(spec["tseed"] // 7) % len(PTYPES)]), logger_fn=text_calls.append, tag=3)
     cbs = [probe, sv, dirp, lg, lg_print, lg_text]
+    if chdir and chdir[0] == "epoch":     # a user callback placed BEFORE the saver changes the working directory at the start of an epoch
+        e_cd = int(chdir[1])
+        cbs = [LambdaCallback(on_epoch_start=lambda st, ep: os.chdir(base + "_elsewhere") if ep == e_cd else None)] + cbs
     want_writes = []        # (file name, sid, epoch argument) in order
     mfits = []
     fired_any = skipped_any = False
@@ -859,6 +1124,8 @@ def saver_session(ctx, spec):
             continue
         _, start, end, stop = fop
         n0, s0 = len(probe.events), len(probe.starts)
+        if chdir and chdir[0] == "before-fit":          # the script moves on after building its callbacks
+            os.chdir(base + "_elsewhere")
         torch.save = rec_save
         try:
             okf = do_fit(ctx, "fit with ModelSaver (%s metadata) and Loggers (scripted and default forms)" % md_kind, case, s, extra,
@@ -985,7 +1252,7 @@ def saver_session(ctx, spec):
         ctx.agree_exact(what + ": number of calls vs model", len(lines), len(ctx.get_model().call("c17_logger_session", lpx, fits_flat)), case)
     ctx.case({"session": "saver", "state": spec["state"], "p": p, "init": save_initial, "md": md_kind, "md_only": md_only,
               "fits": spec["fits"], "tseed": spec["tseed"], "folder": fcfg, "folder_arg": spec.get("folder_arg", "str"), "file_name": tmpl,
-              "form": spec.get("form", 0)}, nontrivial=fired_any and (p == 1 or skipped_any))
+              "form": spec.get("form", 0), "chdir": chdir}, nontrivial=fired_any and (p == 1 or skipped_any))
     ctx.count("saver:md=%s%s" % (md_kind, ",only" if md_only else "")); ctx.count("state:" + spec["state"])
 
 
@@ -1018,18 +1285,37 @@ def script_for(rng, coprime=False):
 FILE_NAMES = ["ck_{}.pt", "ck_{}.pt", "{}", "ck_{0}.pt", "ck_{:>5}.pt", "e{}.model"]
 
 
-def ev_options(rng):
-    """option flags and call forms of the evaluators: verbose x log independently, period type, positional / keyword / defaults"""
-    return {"verbose": bool(rng.random() < 0.35), "log": bool(rng.random() < 0.7), "form": int(rng.integers(3)),
-            "ptype": "np.int64" if rng.random() < 0.25 else "int"}
+# names of metrics / observables that are also names of attributes, properties or methods of the evaluator objects ("epoch" is left
+# out: it is the name of the first CSV column)
+CLASH_METRIC = ["log", "last", "period", "epochs", "names", "metrics", "past_values", "verbose", "metric_kwargs", "csv_fields",
+                "get_value", "clear_history", "on_epoch_end"]
+CLASH_OBS = ["period", "last", "log", "system", "epochs", "names", "past_values", "verbose", "sampling_kwargs", "get_value"]
+
+
+def some_ptype(rng):
+    return "int" if rng.random() < 0.55 else PTYPES[1 + int(rng.integers(len(PTYPES) - 1))]
+
+
+def ev_options(rng, obs=False):
+    """option flags and call forms of the evaluators: verbose x log independently, period type, positional / keyword / defaults,
+    names that are also attributes of the evaluator"""
+    out = {"verbose": bool(rng.random() < 0.35), "log": bool(rng.random() < 0.7), "form": int(rng.integers(3)), "ptype": some_ptype(rng)}
+    if rng.random() < (0.2 if obs else 0.3):
+        pool = CLASH_OBS if obs else CLASH_METRIC
+        k = 1 if obs else int(rng.integers(1, 4))
+        out["extra_names"] = [pool[int(i)] for i in rng.choice(len(pool), size=k, replace=False)]
+    return out
 
 
 def saver_options(rng, init):
     names = FILE_NAMES + (["ck_{:03d}.pt"] if init is False else [])
-    return {"folder": ["fresh", "existing", "populated", "nested"][int(rng.integers(4))],
-            "folder_arg": ["str", "slash", "path"][int(rng.integers(3))],
-            "file_name": names[int(rng.integers(len(names)))], "form": int(rng.integers(3)),
-            "ptype": "np.int64" if rng.random() < 0.25 else "int"}
+    out = {"folder": ["fresh", "existing", "populated", "nested"][int(rng.integers(4))],
+           "folder_arg": ["str", "slash", "path"][int(rng.integers(3))],
+           "file_name": names[int(rng.integers(len(names)))], "form": int(rng.integers(3)), "ptype": some_ptype(rng)}
+    if rng.random() < 0.3:      # a relative folder; the process changes its working directory afterwards (or not)
+        out["folder_arg"] = ["relative", "relative-dot", "relative-path"][int(rng.integers(3))]
+        out["chdir"] = [None, ["before-fit"], ["epoch", int(rng.integers(0, 6))]][int(rng.integers(3))]
+    return out
 
 
 def fired_count(p, a, b):
@@ -1064,7 +1350,11 @@ def random_history(rng, kinds, obs=False):
         stop = None
         if nxt[1] > nxt[0] and rng.random() < 0.15:
             stop = (int(rng.integers(nxt[0], nxt[1])), "epoch" if rng.random() < 0.5 else "batch")
-        ops.append(("fit", nxt[0], nxt[1], stop)); reads.append(pick(rng, ["all", "arrays", "arrays-first", "scalars", "none"], [4, 2, 2, 1, 1]))
+        if rng.random() < 0.25:     # clear_history() called by a user callback WHILE this run goes on
+            ops.append(("fit", nxt[0], nxt[1], stop, [int(rng.integers(nxt[0], nxt[1] + 1)), "start" if rng.random() < 0.6 else "end"]))
+        else:
+            ops.append(("fit", nxt[0], nxt[1], stop))
+        reads.append(pick(rng, ["all", "arrays", "arrays-first", "scalars", "none"], [4, 2, 2, 1, 1]))
         last = nxt
     return {"state": pick(rng, kinds), "period": p, "ops": ops, "reads": reads, "tseed": int(rng.integers(1 << 30)),
             "inrun": bool(rng.random() < 0.3)}
@@ -1079,7 +1369,7 @@ def history_specs(rng, full):
     for i in range(25 if full else 5):
         out.append(("obs", dict(random_history(rng, kinds, obs=True),
                                 script=[[float(np.round(rng.normal(), 3)), float(np.round(rng.uniform(0.1, 2), 3))] for _ in range(7)],
-                                **ev_options(rng))))
+                                **ev_options(rng, obs=True))))
     for i in range(20 if full else 4):      # the same saver / loggers over several runs with the state changed in between
         p = int(rng.integers(1, 4))
         fits = []
@@ -1096,9 +1386,42 @@ def history_specs(rng, full):
 
 
 FIT = lambda a, b, stop=None: ("fit", a, b, stop)
+OBS_SCRIPT = [[0.1, 0.5], [0.3, 1.5], [-0.4, 0.7], [1.1, 0.2], [0.6, 1.9]]
+# fixed sessions of red-team round 2 (always run, first of their kind): names that are also attributes of the evaluator objects,
+# clear_history() called by a user callback DURING a run, the dict handed out as `last` edited by the caller, indices / periods in
+# numpy integer encodings (every session), a relative saver folder with the working directory changed afterwards
+FIXED_RT2 = [
+    ("metric", {"state": "positive", "period": 2, "ops": [FIT(1, 6), ("scribble",), FIT(7, 8), ("clear",), FIT(3, 6)],
+                "reads": ["all", "all", "all", "none", "all"], "extra_names": ["log", "last", "period", "epochs", "names", "metrics"],
+                "tseed": 61, "script": [0.5, -1.25, 2.0, 0.75, -0.5, 1.0, 3.5], "probe_before": True, "verbose": True, "log": True, "form": 0,
+                "ptype": "np.int32"}),
+    ("metric", {"state": "complex", "period": 1,
+                "ops": [("fit", 1, 6, None, [4, "start"]), FIT(7, 8), ("fit", 1, 5, None, [3, "end"]), ("fit", 1, 8, (2, "epoch"), [4, "start"])],
+                "reads": ["all", "arrays-first", "all", "all"], "extra_names": ["past_values", "get_value"],
+                "tseed": 62, "script": [0.5, -1.25, 2.0, 0.75, -0.5], "probe_before": False, "verbose": False, "log": True, "form": 1,
+                "ptype": "np.uint8"}),
+    ("metric", {"state": "dm", "period": 2,
+                "ops": [("fit", 1, 8, None, [4, "start"]), ("scribble",), ("fit", 9, 12, None, [10, "end"]), ("fit", 1, 9, None, [5, "start"])],
+                "reads": ["none", "none", "all", "scalars"], "inrun": True,
+                "tseed": 63, "script": [0.5, -1.25, 2.0, 0.75, -0.5, 1.0, 3.5], "probe_before": True, "verbose": False, "log": False, "form": 2,
+                "ptype": "np.int16"}),
+    ("obs", {"state": "positive", "period": 1, "ops": [FIT(1, 3), ("scribble",), FIT(4, 4), ("clear",), FIT(2, 3)],
+             "reads": ["all", "all", "all", "none", "all"], "extra_names": ["period", "last", "log"],
+             "tseed": 64, "script": OBS_SCRIPT, "verbose": True, "log": True, "form": 0, "ptype": "np.intp"}),
+    ("obs", {"state": "complex", "period": 2, "ops": [("fit", 1, 6, None, [4, "start"]), ("fit", 7, 10, None, [8, "end"]), FIT(11, 12)],
+             "reads": ["all", "all", "arrays-first"], "inrun": True, "extra_names": ["system"],
+             "tseed": 65, "script": OBS_SCRIPT, "verbose": False, "log": True, "form": 1, "ptype": "np.uint8"}),
+    ("saver", {"state": "positive", "period": 2, "save_initial": True, "md": "callable", "md_only": False, "folder": "fresh",
+               "folder_arg": "relative", "chdir": ["epoch", 3], "fits": [FIT(1, 6)], "lg_period": 2, "tseed": 66, "ptype": "np.int32"}),
+    ("saver", {"state": "complex", "period": 1, "save_initial": True, "md": "dict", "md_only": False, "folder": "nested",
+               "folder_arg": "relative-dot", "chdir": ["before-fit"], "fits": [FIT(1, 3), FIT(2, 3)], "lg_period": 1, "tseed": 67,
+               "ptype": "np.uint8", "form": 2}),
+    ("saver", {"state": "dm", "period": 3, "save_initial": False, "md": "none", "md_only": False, "folder": "existing",
+               "folder_arg": "relative-path", "chdir": None, "fits": [FIT(1, 6)], "lg_period": 3, "tseed": 68, "ptype": "np.int16", "form": 1}),
+]
 # fixed histories (always run, first of their kind): a cache / memo / stored handle inside a callback that is not (completely)
 # invalidated by clear_history, by new records, by edits of returned arrays or by a change of the trained state shows here
-FIXED_HISTORIES = [
+FIXED_HISTORIES = FIXED_RT2 + [
     # read, clear_history, run again for exactly as many evaluations (other epochs), read
     ("metric", {"state": "positive", "period": 2, "ops": [FIT(1, 6), ("clear",), FIT(7, 12)], "reads": ["all", "none", "all"],
                 "tseed": 31, "script": [0.5, -1.25, 2.0, 0.75, -0.5], "probe_before": True, "verbose": False, "log": True, "form": 0}),
@@ -1182,7 +1505,7 @@ def specs(ctx):
                 ops += ([("clear",)] if rng.random() < 0.6 else []) + [("fit", 1, int(rng.integers(1, 7)), None)]
             out.append(("obs", dict({"state": kinds[(ri + p) % 3], "period": p, "ops": ops, "tseed": int(rng.integers(1 << 30)),
                                      "script": [[float(np.round(rng.normal(), 3)), float(np.round(rng.uniform(0.1, 2), 3))] for _ in range(5)]},
-                                    **ev_options(rng))))
+                                    **ev_options(rng, obs=True))))
     for i in range(40 if full else 8):
         k = int(rng.integers(2, 5))
         periods = [int(x) for x in rng.integers(1, 6, size=k)]
@@ -1230,10 +1553,55 @@ def specs(ctx):
              ("obs", {"state": "dm", "period": 1, "ops": [("fit", 1, 3, None)], "tseed": 21, "script": [[0.1, 0.5], [0.3, 1.5]],
                       "verbose": True, "log": False, "form": 1, "ptype": "np.int64"})]
     # histories first (fixed ones, then the random stream), then the earlier fixed cases and the grid
+    _NFIXED.clear()
+    for kind, _ in FIXED_HISTORIES + fixed:
+        _NFIXED[kind] = _NFIXED.get(kind, 0) + 1
     return FIXED_HISTORIES + fixed + history_specs(rng, full) + out
 
 
+_NFIXED = {}                # number of fixed sessions per kind (they come first within their kind and are never cut by the time budget)
+
+
 RUNNERS = {"metric": metric_session, "obs": obs_session, "multi": multi_session, "saver": saver_session}
+
+FINDING_NARROW_PERIOD = "F-C17-narrow-int-period"
+
+
+def narrow_period_cases(ctx):
+    """A period given as a NARROW numpy integer (np.uint8 / np.int8: what an integer array of small dtype hands over) in a run whose
+    epoch numbers pass the range of that type (epoch 256 / 128: starting_epoch makes that a five-epoch run).  On the unchanged tree
+    (NumPy 2 promotion rules) `epoch % period` raises OverflowError there and fit aborts.  This is inside the quantifier (all
+    periods, all epoch ranges) but FAILS on the unchanged tree, so it is a finding reported to the integrator: it becomes a demand
+    (ctx.require, matched by a known-findings entry `match: {"finding": "F-C17-narrow-int-period"}`) as soon as known_findings.json
+    lists that id; until then the outcome is only recorded in the evidence (histogram + extra)."""
+    from qucumber.callbacks import MetricEvaluator, Logger, ModelSaver
+    active = any(k.get("id") == FINDING_NARROW_PERIOD for k in ctx.known)
+    for tname, first in (("uint8", 254), ("int8", 126)):
+        p = getattr(np, tname)(2)
+        case = {"session": "narrow-int period", "finding": FINDING_NARROW_PERIOD, "period": "np.%s(2)" % tname,
+                "starting_epoch": first, "epochs": first + 4}
+        s, extra = make_state({"state": "positive", "tseed": 71})
+        seen = []
+        folder = os.path.join(ctx.scratch, "narrow_%s_%d" % (tname, ctx.evaluations))
+        try:
+            ev = MetricEvaluator(p, {"m": lambda st, **kw: 1.0})
+            lg = Logger(p, logger_fn=seen.append, msg_gen=lambda st, e, **kw: int(e))
+            sv = ModelSaver(p, folder, "ck_{}.pt", save_initial=False)
+            import io, contextlib
+            with contextlib.redirect_stdout(io.StringIO()):
+                s.fit(DATA, epochs=first + 4, pos_batch_size=3, neg_batch_size=3, k=1, lr=0.1, starting_epoch=first, callbacks=[ev, lg, sv])
+            want = [e for e in range(first, first + 5) if e % 2 == 0]
+            ok = [int(e) for e in ev.epochs] == want and seen == want and sorted(os.listdir(folder)) == sorted("ck_%d.pt" % e for e in want)
+            detail = {"epochs": [int(e) for e in ev.epochs], "logged": seen, "files": sorted(os.listdir(folder)), "want": want}
+        except Exception as e:
+            ok, detail = False, repr(e)[:200]
+        ctx.case(case)
+        if active:
+            ctx.require("callbacks with a period given as a narrow numpy integer act at the multiples of the period beyond epoch 127 / 255", ok, case, detail)
+        else:
+            ctx.count("finding candidate (reported, not yet a demand) %s: %s" % (FINDING_NARROW_PERIOD, "holds" if ok else "FAILS on this tree"))
+            if not ok:
+                ctx.extra.setdefault("finding_candidates", {})[FINDING_NARROW_PERIOD] = {"case": case, "detail": str(detail)}
 
 
 def norm_spec(spec):
@@ -1265,16 +1633,16 @@ def run(ctx):
     t0 = time.time()
     budget = 400 if ctx.thorough else 45
     done, skipped = {}, {}
-    nfixed = {}
-    for kind, _ in FIXED_HISTORIES:
-        nfixed[kind] = nfixed.get(kind, 0) + 1
-    for kind, spec in interleave(specs(ctx)):
+    all_specs = interleave(specs(ctx))
+    nfixed = dict(_NFIXED)
+    for kind, spec in all_specs:
         if time.time() - t0 > budget and done.get(kind, 0) >= max(MIN_PER_KIND, nfixed.get(kind, 0) + 5):
             skipped[kind] = skipped.get(kind, 0) + 1
             ctx.count("skipped_time_budget:" + kind)
             continue
         RUNNERS[kind](ctx, dict(norm_spec(spec), kind=kind))
         done[kind] = done.get(kind, 0) + 1
+    narrow_period_cases(ctx)
     for kind in RUNNERS:
         ctx.count("sessions_executed:" + kind, done.get(kind, 0))
         if done.get(kind, 0) == 0:
